@@ -1,9 +1,10 @@
 import KalignModel.Props.C03
 #print axioms Kalign.sort_unique_of_distinct_keys
 #print axioms Kalign.canon_perm_invariant
+#print axioms Kalign.canon_perm_invariant_of_distinct_names
 #print axioms Kalign.order_independent
-#print axioms Kalign.order_independent_of_distinct_prefixes
+#print axioms Kalign.order_independent_of_distinct_names
 #print axioms Kalign.run_restores_input_order
 #print axioms Kalign.rank_use_sites
-#print axioms Kalign.prefix_collision
-#print axioms Kalign.prefix_collision_counterexample
+#print axioms Kalign.common_prefix_distinct_keys
+#print axioms Kalign.common_prefix_example
